@@ -35,6 +35,7 @@ type pmRunStats struct {
 
 // pmRun executes a case. prop selects which oracle is asserted ("C01" or "C03").
 func pmRun(c pmCase, prop string) (fail *vlib.Failure, rs pmRunStats) {
+	defer vlib.Guard(prop, c, nil)()
 	env := pmSetup(c)
 	defer env.close()
 
